@@ -256,6 +256,9 @@ pub fn c07_claims(m: &mut Mon, ctx: &StepCtx, stats: &mut Stats, out: &mut Vec<V
         } else if paged != whole {
             viol(out, "C07", "history_pages_report_every_batch", ctx.idx, "hub.AllHistory:paging", format!("AllHistory read in pages of {} gives batches {:?}, read in one page {:?} (current batch {})", page, paged, whole, post.batch.id));
         }
+        if whole.windows(2).any(|w| w[0] >= w[1]) {
+            viol(out, "C07", "history_pages_report_every_batch", ctx.idx, "hub.AllHistory:order", format!("AllHistory is not in ascending batch order: {:?}...", whole.iter().take(8).collect::<Vec<_>>()));
+        }
         if whole.len() as u64 + 1 != post.batch.id {
             viol(out, "C07", "history_pages_report_every_batch", ctx.idx, "hub.AllHistory:incomplete", format!("AllHistory reports {} closed batches but the current batch is {}", whole.len(), post.batch.id));
         }
